@@ -144,9 +144,10 @@ class GroupTrigger(Monitor):
         for t in self.trigs:
             out.append((
                 t['members'], t['starts'], t['live'], t['ignored'],
-                t['flow'], tuple(sorted(t['base'].items())),
+                t['flow'], t['F'], tuple(sorted(t['base'].items())),
                 tuple(sorted((m, tuple(v)) for m, v in t['subs'].items())),
                 tuple(sorted(t['qfull'].items())),
+                tuple(sorted(t['had_job'].items())),
             ))
         return tuple(out)
 
@@ -178,7 +179,12 @@ class GroupTrigger(Monitor):
             if m not in trig['members']:
                 continue
             base = trig['base'].get(m, 0)
-            cur = num > base or (m in trig['live'] and num == base)
+            after = {x[0] for x in trig['subs'].get(m, ())}
+            # current run: a job submitted after the trigger, or the job
+            # that was live and left to finish (live group-start member, or
+            # a member of another flow that the triggered flow merges into)
+            cur = num > base or num in after or (num == base and (
+                m in trig['live'] or m in trig['ignored']))
             if not cur:
                 continue
             for o in env_outputs(job):
@@ -233,6 +239,20 @@ class GroupTrigger(Monitor):
         elif kind == 'cmdq_begin':
             if self.cmd is not None:
                 self._begin(w)
+        elif kind == 'cmd_processed':
+            trig = self.fresh
+            if trig is not None and trig['F'] is None:
+                # the flows this trigger acted in: numbers it allocated and
+                # the flows of its group-start members right after the
+                # command (other members left in the pool belong to another
+                # flow)
+                pool = self._pool(w)
+                F = set(w.schd.pool.flow_mgr.flows) - trig.pop(
+                    'flows_before')
+                for m in trig['starts']:
+                    if m in pool:
+                        F.update(pool[m].flow_nums)
+                trig['F'] = tuple(sorted(F))
         elif kind == 'cmd_start':
             if data['kind'] == 'jobs-submit':
                 for jk in data['jobs']:
@@ -258,6 +278,10 @@ class GroupTrigger(Monitor):
         """The scheduler is about to execute the trigger command."""
         cmd, self.cmd = self.cmd, None
         ref = self.ref
+        if w.schd.stop_mode is not None:
+            # executed while the scheduler is already shutting down
+            COUNTS.bump('trigger_while_stopping_not_judged')
+            return
         members = tuple(sorted(
             m for m in cmd['tasks'] if ref.valid(*m)
             and ref.icp <= m[1] <= ref.fcp))
@@ -281,9 +305,12 @@ class GroupTrigger(Monitor):
                 m for m in members
                 if m not in starts or (m in pool and pool[m].flow_nums))
         elif cmd['flow'] != 'all':
+            merge = any(m in pool for m in members)
             ignored = tuple(
-                m for m in members if m not in starts and m in pool)
+                m for m in members if m not in starts and (
+                    m in pool or merge))
         base = {}
+        had_job = {}
         for m in members:
             nums = [num for (p, n, num) in w.env.jobs
                     if (n, int(p)) == m]
@@ -291,6 +318,8 @@ class GroupTrigger(Monitor):
             if m in pool:
                 b = max(b, int(pool[m].submit_num))
             base[m] = b
+            had_job[m] = any((n, int(p)) == m and num == b
+                             for (p, n, num) in w.env.jobs)
         # queue occupancy before the command
         qfull = {}
         for m in starts:
@@ -310,7 +339,8 @@ class GroupTrigger(Monitor):
         trig = {
             'members': members, 'starts': starts, 'live': live,
             'ignored': ignored, 'flow': cmd['flow'], 'base': base,
-            'subs': {}, 'qfull': qfull,
+            'subs': {}, 'qfull': qfull, 'F': None, 'had_job': had_job,
+            'flows_before': set(w.schd.pool.flow_mgr.flows),
             'held': tuple(m for m in members
                           if m in pool and pool[m].state.is_held),
             'paused': bool(w.schd.is_paused),
@@ -328,6 +358,13 @@ class GroupTrigger(Monitor):
         if trig['paused']:
             COUNTS.bump('trigger_while_paused')
 
+    @staticmethod
+    def _relevant(trig: dict, flows) -> bool:
+        """Is a run with these flow numbers a run in the triggered flow?"""
+        if trig['flow'] == 'none':
+            return not flows
+        return bool(set(flows) & set(trig['F'] or ()))
+
     def _flows_of(self, w: World, m: Inst) -> Tuple[int, ...]:
         it = self._pool(w).get(m)
         return tuple(sorted(it.flow_nums)) if it is not None else ()
@@ -336,25 +373,35 @@ class GroupTrigger(Monitor):
         p, n, num = jk
         m = (n, int(p))
         trig = self.latest(m)
-        if trig is None or num <= trig['base'].get(m, 0):
+        if trig is None:
             return
+        base = trig['base'].get(m, 0)
+        if num == base and m in trig['live'] and not trig['had_job'][m]:
+            # the live (preparing) job of a group-start member: its
+            # submission command only starts now
+            trig['had_job'][m] = True
+            return
+        # (cylc may reuse a submit number after removing a member from the
+        # flow: every jobs-submit after the trigger is a submission)
         subs = trig['subs'].setdefault(m, [])
-        if any(s[0] == num for s in subs):
-            return
         flows = self._flows_of(w, m)
+        if not self._relevant(trig, flows):
+            COUNTS.bump('member_submission_in_another_flow')
+            return
         if m in trig['live']:
             self.bad.append(self.viol(
                 'live-group-start-resubmitted',
                 f'{p}/{n} had a live job when {trig["members"]} was '
-                f'triggered (flow={trig["flow"]}) but was submitted again '
-                f'(#{num})'))
+                f'triggered (flow={trig["flow"]}, flows of the trigger '
+                f'{trig["F"]}) but was submitted again (#{num}, flows '
+                f'{flows})'))
         for (onum, oflows) in subs:
-            if (not flows and not oflows) or set(flows) & set(oflows):
-                self.bad.append(self.viol(
-                    'member-ran-twice-after-trigger',
-                    f'{p}/{n} was submitted twice (#{onum} flows {oflows}, '
-                    f'#{num} flows {flows}) after one trigger of '
-                    f'{trig["members"]} (flow={trig["flow"]})'))
+            self.bad.append(self.viol(
+                'member-ran-twice-after-trigger',
+                f'{p}/{n} was submitted twice in the triggered flow '
+                f'{trig["F"]} (#{onum} flows {oflows}, #{num} flows '
+                f'{flows}) after one trigger of {trig["members"]} '
+                f'(flow={trig["flow"]})'))
         subs.append((num, flows))
         COUNTS.bump('member_submissions')
 
@@ -372,6 +419,8 @@ class GroupTrigger(Monitor):
             return
         if trig['subs'].get(m):
             return      # already ran after the trigger: a later natural run
+        if not self._relevant(trig, tuple(it.flow_nums)):
+            return      # a run in another flow
         COUNTS.bump('inner_member_prepared')
         if not self.in_group_ok(m, trig):
             want = [a for a in self.in_group_atoms(m, set(trig['members']))]
@@ -460,3 +509,13 @@ class TriggerProfile(OpProfile):
     def make_world(self):
         wrap_c28()
         return super().make_world()
+
+    def job_steps(self, w, job):
+        # a job that is about to be killed (its task was removed by the
+        # trigger) makes no further progress: late messages of orphaned
+        # jobs are the subject of C10, not of this property
+        for proc in w.env.pending():
+            if proc.kind == 'jobs-kill' and tuple(job.key) in [
+                    tuple(j) for j in proc.jobs]:
+                return []
+        return super().job_steps(w, job)
